@@ -9,7 +9,13 @@ from vlib import Check
 def main(tier, seed, replay):
     ck = Check("C08", tier, seed)
     ck.coq_theorems()
+    if replay and "sesscache" in replay:
+        conccheck.run(ck, "sesscache", tier, seed, replay, only="destroyed")
+        return ck.finish()
     cases = conccheck.run(ck, "keycache", tier, seed, replay)
+    if cases is not None and not replay:
+        # "... or close of another session": holders of a cached session while other holders close it / it is evicted
+        conccheck.run(ck, "sesscache", tier, seed, None, n_quick=90, n_thorough=900, only="destroyed")
     if cases is not None:
         s = ck.cov["schedules"]["keycache"]
         ck.cov.update({"evaluations": s["evaluations"], "distinct_nontrivial": s["distinct_schedules"],
